@@ -109,6 +109,11 @@ def temporal_dag(G, u, v=None, start=None, end=None):
                         an = f"{an}_{tid}"
                         sources[an] = None
 
+                if an == n:
+                    # self-loop of the root at its own source occurrence: not a hop, and not a cycle of the DAG
+                    DG.add_node(an)
+                    continue
+
                 DG.add_edge(an, n)
                 to_add.append(n)
 
